@@ -92,6 +92,10 @@ func newREnv(sec rSecrets, kcMode string) *rEnv {
 	return e
 }
 
+func cfgUser(name, scope, pw string) config.User {
+	return config.User{Name: name, Scopes: []string{scope}, Authenticator: bcryptAuthn(pw)}
+}
+
 // credOK is the independent credential oracle: user of the scope, resolves to an authenticator, bcrypt verifies.
 func (e *rEnv) credOK(scope, user, pw string) bool {
 	want, ok := e.cred[scope][user]
